@@ -70,20 +70,52 @@ class Item:
         self.area, self.local, self.text, self.kind, self.node, self.cxx = area, local, text, kind, node, cxx
         self.full = 'Src.%s.%s' % (area, local)
         self.params, self.ret, self.defd_trivial, self.uses_self = [], None, True, False
+        self.effectful, self.fuel, self.state_ty, self.cparams = False, False, None, []
+
+
+class Fx:
+    """effect summary of the function being translated (shared by all copies of its Env)"""
+
+    def __init__(self):
+        self.uses_self = False
+        self.ret_ty = None
+        self.writes_self = False     # a member of *this is assigned
+        self.writes = False          # any assignment at all (locals included)
+        self.throws = False
+        self.fuel = False            # contains a loop (or calls a function with one)
+        self.calls_fx = False        # calls a function with effects
+        self.ref_locals = []         # reference-typed locals bound to an lvalue (aliases)
+
+    @property
+    def effectful(self):
+        return self.writes_self or self.throws or self.fuel or self.calls_fx
 
 
 class Env:
     def __init__(self, self_ty=None, extract=False):
-        self.vars = {}        # decl id -> (lean name, Ty)
+        self.vars = {}        # decl id -> (lean name, Ty): the CURRENT version of the variable (SSA renaming)
         self.used = set()
         self.self_ty = self_ty
-        self.uses_self = False
         self.extract = extract
         self.free = {}        # decl id -> (lean name, Ty, offset)
-        self.ret_ty = None
+        self.fx = Fx()
+        self.self_name = 'self' if self_ty is not None else '()'   # current version of the object state
+        self.in_loop = None   # loop context (x2l_st.py)
+        self.opaque = ()      # qualified names of the calls this target treats as opaque values
+        self.opaque_vals = {} # decl id -> (lean name, Ty, qualified name): the extra parameters
+
+    uses_self = property(lambda s: s.fx.uses_self, lambda s, v: setattr(s.fx, 'uses_self', v))
+    ret_ty = property(lambda s: s.fx.ret_ty, lambda s, v: setattr(s.fx, 'ret_ty', v))
+
+    def copy(self):
+        """a branch: own variable versions, everything else shared"""
+        e = Env.__new__(Env)
+        e.__dict__.update(self.__dict__)
+        e.vars = dict(self.vars)
+        return e
 
     def fresh(self, name):
-        base = ident(name)
+        base = 'self' if name == 'self' else ident(name)     # versions of the object state: self_1, self_2, …
         n, k = base, 0
         while n in self.used:
             k += 1
@@ -214,6 +246,9 @@ class Translator:
             return T_VEC
         if s in self.ix.records:
             return Ty('rec', rec=self.ix.records[s])
+        full = self.ix.complete_defaults(s)
+        if full is not None and full in self.ix.records:
+            return Ty('rec', rec=self.ix.records[full])
         if s in self.ix.enums:
             return self.enum_ty(self.ix.enums[s], n, s0)
         self.bad(n, 'type not in the translated subset: ' + s0)
